@@ -2158,3 +2158,67 @@ def bi_hash(interp, st, args, kwargs, node):
 BUILTINS["hash"] = bi_hash
 METHODS[("Grid", "tobytes")] = m_tobytes
 METHODS[("Arr", "tobytes")] = m_tobytes
+
+
+# ----------------------------------------------------------------------------- zip(*rows), torch.stack (C17: get_batch)
+def zip_star(interp, st, lst, node):
+    """zip(*L) for a list L of symbolic length n >= 1 whose elements all iterate to the same constant number m of items (arrays with a
+    constant first dimension, tuples): m tuples of length n, the j-th holding the j-th item of every element - returned as m symbolic
+    lists.  (With n == 0 python yields nothing and the usual unpacking fails: an obligation of the caller.)"""
+    M = _M()
+    n = lst.length
+    interp.ctx.oblige(st, to_z3(as_int(n)) >= 1, f"zip-star-nonempty@{getattr(node, 'lineno', '?')}", node, "assert")
+    k = z3.Int(V.fresh_name("zk"))
+    st.guards.append(z3.And(k >= 0, k < to_z3(as_int(n))))
+    try:
+        elem = lst.get(k)
+        items = M.iter_values(interp, st, elem, node)
+    finally:
+        st.guards.pop()
+    if not isinstance(items, list):
+        raise Outside("zip(*rows) where a row has symbolic length", node)
+    out = []
+    for it in items:
+        arrs = []
+        for l in V.leaves_of(it):
+            if l is None or isinstance(l, (str, bool, int, float)):
+                arrs.append(l)
+            else:
+                arrs.append(V.lam_array(k, l))
+        out.append(SymList(it, arrs, n))
+    return out
+
+
+def torch_stack(interp, st, args, kwargs, node):
+    """torch.stack(seq) (dim 0): the tensor whose k-th slice is seq[k]; all elements must have one shape and seq must not be empty
+    (torch raises otherwise: obligations).  Trusted library contract."""
+    M = _M()
+    if kwargs or len(args) != 1:
+        raise Outside("torch.stack with a dim argument", node)
+    seq = args[0]
+    _trust("torch.stack(seq) puts seq[k] at index k of a new leading dimension")
+    if isinstance(seq, tuple):
+        seq = list(seq)
+    if isinstance(seq, list):
+        if not seq:
+            raise Outside("torch.stack of an empty list", node)
+        gs = [M.arr_to_grid(g) if isinstance(g, Arr) else g for g in seq]
+        if not all(isinstance(g, Grid) for g in gs):
+            raise Outside("torch.stack of non-arrays", node)
+        return stack_grids(interp, st, gs, node)
+    if isinstance(seq, SymList) and isinstance(seq.tmpl, Grid):
+        n = seq.length
+        ln = getattr(node, "lineno", "?")
+        interp.ctx.oblige(st, to_z3(as_int(n)) >= 1, f"stack-nonempty@{ln}", node, "assert")
+        k = z3.Int(V.fresh_name("sk"))
+        first = seq.get(0)
+        ek = seq.get(k)
+        same = [to_z3(as_int(a)) == to_z3(as_int(b)) for a, b in zip(ek.dims, first.dims) if not (isinstance(a, int) and isinstance(b, int) and a == b)]
+        if same:
+            interp.ctx.oblige(st, z3.ForAll([k], z3.Implies(z3.And(k >= 0, k < to_z3(as_int(n))), z3.And(*same))), f"stack-shape@{ln}", node, "shape")
+        arr = V.lam_array(k, ek.arr)
+        return Grid([n] + list(first.dims), arr, first.kind, None, first.dtype)
+    raise Outside(f"torch.stack of {type(seq).__name__}", node)
+
+
+LIBFUNCS.update({"torch.stack": torch_stack})
